@@ -4,7 +4,9 @@
    For every key (four u64), every list of byte slices, every width and every build profile the result is Ok (no panic), equals
    HighwayHash of the concatenation, does not depend on how the bytes were cut into appends, and is the result the interpreted
    source of PortableHash gives (C04: the Wasm backend agrees with the portable one, at the level of the two source texts).
-   Obtained by composing the translator tie (SourceKernelWasmFull.v) with the model's refinement theorems (WasmRefine.v). *)
+   Obtained by composing the translator tie (SourceKernelWasmFull.v) with the model's refinement theorems (WasmRefine.v).
+   Every function on the path — internal::unordered_load3 and HashPacket's methods included — is translated source run by
+   the interpreter; only the wasm32 SIMD instructions get their meaning from a table. *)
 From Coq Require Import NArith List String Bool Lia.
 From HW Require Import Word Packet Portable Spec X86 Wasm.
 From HW.Facts Require Import RustLite.
@@ -40,6 +42,8 @@ Qed.
 
 Lemma WInv_wfp s : WInv s -> wfp (w_buffer s).
 Proof. intros [_ [[Hl Hi] _]]. split; [exact Hl|]. unfold M64. lia. Qed.
+Lemma WInv_wfpb s : WInv s -> wfpb (w_buffer s).
+Proof. intros HI. split; [apply WInv_wfp; exact HI|]. destruct HI as [_ [_ Hb]]. exact Hb. Qed.
 
 Lemma wsrc_feed_ok p ds : forall s, WInv s -> all_bytes ds = true ->
   exists s', wsrc_feed p (wgenv_of (w_core s) (w_buffer s)) ds = Ok (wgenv_of (w_core s') (w_buffer s')) /\ WInv s' /\
@@ -64,7 +68,7 @@ Lemma wsrc_finish_ok p w s : WInv s ->
 Proof.
   intros HI. unfold wsrc_finish.
   pose proof (w_finalize_ok p w s HI) as F.
-  pose proof (WInv_wfp s HI) as W'.
+  pose proof (WInv_wfpb s HI) as W'.
   destruct s as [c b]. cbn [w_core w_buffer] in *.
   destruct w; cbn [w_finalize wfin_name] in F |- *.
   - change (call_fn p (wext p) wall_fns 9 "WasmHash::finalize64"%string ?g ?a)
